@@ -86,8 +86,12 @@ def one_case(rep, spec, index):
     if not positive:
         rep.count("non_positive_flux_skipped")
     else:
-        curve = DiffusionCurve(mixture=fc.mix, membrane_name="M", feed_temperature=fc.t_feed, feed_compositions=comps,
-                               partial_fluxes=fluxes, permeate_temperature=fc.tp, permeate_pressure=fc.pp)
+        flavour = index % 7  # rows as tuples (usual), as lists, or the whole table as an array / tuple
+        import numpy
+
+        rows = [list(f) for f in fluxes] if flavour == 1 else numpy.array(fluxes) if flavour == 2 else tuple(fluxes) if flavour == 3 else fluxes
+        curve = DiffusionCurve(mixture=fc.mix, membrane_name="M", feed_temperature=fc.t_feed, feed_compositions=tuple(comps) if flavour == 3 else comps,
+                               partial_fluxes=rows, permeate_temperature=fc.tp, permeate_pressure=fc.pp)
         rep.require("curve permeances are exposed in kg/(m2 h kPa)", all(p[i].units == Units.kg_m2_h_kPa for p in curve.permeances for i in (0, 1)), case)
         for k, c in enumerate(comps):
             fc.comp = c
